@@ -22,12 +22,12 @@ type IBox struct {
 }
 
 type C12Case struct {
-	Kind string `json:"kind"` // geom | env
-	G    gm.G   `json:"g"`
-	G2   gm.G   `json:"g2"`
-	Perm []int  `json:"perm"`
+	Kind string  `json:"kind"` // geom | env
+	G    gm.G    `json:"g"`
+	G2   gm.G    `json:"g2"`
+	Perm []int   `json:"perm"`
 	E    [3]IBox `json:"e"`
-	N    int    `json:"n"` // number of envelopes used (2 or 3)
+	N    int     `json:"n"` // number of envelopes used (2 or 3)
 }
 
 func (b IBox) env() geom.Envelope {
@@ -423,8 +423,8 @@ func c12Check(c C12Case, cx *h.Ctx) *h.Failure {
 
 func TestC12(t *testing.T) {
 	h.Run(t, h.Prop[C12Case]{
-		ID:   "C12",
-		Rule: "two families: (env) pairs and triples of envelopes over the integer lattice {-2..2}^2 incl. point, horizontal, vertical and empty envelopes - all ordered pairs enumerated in both tiers, all triples in thorough and random triples in quick - with every method (Contains on all 49 points of {-3..3}^2 and non-finite points, Intersects, Covers, Distance, ExpandToInclude*, Center, Width/Height/Area, Min/Max/MinMaxXYs, AsGeometry, BoundingDiagonal, AsBox, IsPoint/IsLine/IsRectangle, TransformXY, NewEnvelope) against closed-interval arithmetic on integers, empty = identity of join and absorbing for predicates, join commutative/idempotent/associative; (geom) generated geometries of every type and coordinate type (arbitrary finite floats incl. subnormal/max, empty members, nesting, zero values; or valid integer shapes): Envelope() empty iff the geometry is, exactly the min/max over the control points (on Geometry, the concrete type and the Sequence), contains every control point, unchanged by Reverse/Force2D/ForceCoordinatesType/ForceCW/ForceCCW/member rotation, collection envelope = join of members, Envelope(Union(a,b)) within 1e-9 of the join. non-trivial = two distinct non-empty envelopes (env) / a non-empty geometry with members, an empty member or Z/M (geom)",
+		ID:          "C12",
+		Rule:        "two families: (env) pairs and triples of envelopes over the integer lattice {-2..2}^2 incl. point, horizontal, vertical and empty envelopes - all ordered pairs enumerated in both tiers, all triples in thorough and random triples in quick - with every method (Contains on all 49 points of {-3..3}^2 and non-finite points, Intersects, Covers, Distance, ExpandToInclude*, Center, Width/Height/Area, Min/Max/MinMaxXYs, AsGeometry, BoundingDiagonal, AsBox, IsPoint/IsLine/IsRectangle, TransformXY, NewEnvelope) against closed-interval arithmetic on integers, empty = identity of join and absorbing for predicates, join commutative/idempotent/associative; (geom) generated geometries of every type and coordinate type (arbitrary finite floats incl. subnormal/max, empty members, nesting, zero values; or valid integer shapes): Envelope() empty iff the geometry is, exactly the min/max over the control points (on Geometry, the concrete type and the Sequence), contains every control point, unchanged by Reverse/Force2D/ForceCoordinatesType/ForceCW/ForceCCW/member rotation, collection envelope = join of members, Envelope(Union(a,b)) within 1e-9 of the join. non-trivial = two distinct non-empty envelopes (env) / a non-empty geometry with members, an empty member or Z/M (geom)",
 		Assumptions: []string{"integer interval arithmetic in props/c12_test.go", "polygon envelopes are defined from the shell: generated polygons keep holes within the shell's bounds"},
 		Gen:         c12Gen,
 		Check:       c12Check,
